@@ -74,6 +74,13 @@ GAP_NAME = {"": "glued", " ": "space", "   ": "3-spaces", "\n": "newline", "\n  
             " // c\n": "comment", "\t": "tab",
             " // é😀\n": "comment"}
 
+# Comment separators whose TEXT looks like code (an `=`, brackets, a quote). They are tried only in the gaps next to the tokens
+# whose spacing the formatter rewrites by searching the text between two nodes (`=`, `:`, `{`, `,`, `=>`, `+=`, `-=`).
+TOKEN_COMMENT_GAPS = [" // a = b\n", " // { \" (\n"]
+TOKEN_COMMENT_AROUND = {"=", ":", "{", ",", "=>", "+=", "-="}
+GAP_NAME[TOKEN_COMMENT_GAPS[0]] = "comment-with-equals"
+GAP_NAME[TOKEN_COMMENT_GAPS[1]] = "comment-with-brackets"
+
 # string-literal content alphabet (raw text between the quotes; newlines are REAL newlines inside the literal)
 STR_VARIANTS = [("multi-line", "a\n  x"), ("brace-line", "a\n} b"), ("slashes", "a // b"), ("blank-lines", "a\n\n\n  x")]
 NONASCII = "é😀"
@@ -251,10 +258,33 @@ def nonascii_variant(base):
     return substitute(base, repl, base.variant + "+non-ascii" if base.variant != "plain" else "non-ascii")
 
 
-def deviations(base, k, alphabet=GAPS):
-    """Every set of <= k (gap, separator) deviations from the canonical layout, k = 0 excluded... in order: 1 deviation, then 2."""
+def nonascii_leading_variant(base):
+    """A `// é😀` comment line as the first piece of the file, and é😀 at the start of every string literal and comment:
+    every byte offset after the first line differs from the character offset."""
+    repl = []
+    for i, (p, c) in enumerate(zip(base.pieces, base.classes)):
+        if c == "str":
+            repl.append((i, p[:1] + NONASCII + p[1:]))
+        elif c == "comment":
+            k = 3 if p.startswith("///") else 2
+            repl.append((i, p[:k] + " " + NONASCII + p[k:]))
+    v = substitute(base, repl, "non-ascii")
+    v.pieces = ["// " + NONASCII] + v.pieces
+    v.classes = ["comment"] + list(base.classes)
+    v.gaps = [base.gaps[0], "\n"] + list(base.gaps[1:])
+    return v
+
+
+def deviations(base, k, alphabet=GAPS, token_comments=False):
+    """Every set of <= k (gap, separator) deviations from the canonical layout, k = 0 excluded... in order: 1 deviation, then 2.
+    token_comments: also the TOKEN_COMMENT_GAPS separators, in the gaps next to a TOKEN_COMMENT_AROUND piece."""
     n = len(base.gaps)
-    singles = [(i, s) for i in range(n) for s in alphabet if s != base.gaps[i]]
+    singles = []
+    P = base.pieces
+    for i in range(n):
+        singles += [(i, s) for s in alphabet if s != base.gaps[i]]
+        if token_comments and ((i > 0 and P[i - 1] in TOKEN_COMMENT_AROUND) or (i < len(P) and P[i] in TOKEN_COMMENT_AROUND)):
+            singles += [(i, s) for s in TOKEN_COMMENT_GAPS]
     if k >= 1:
         for d in singles:
             yield (d,)
@@ -289,7 +319,7 @@ def tree_pairs_differ(ctx, pairs, per_job=256):
     return out
 
 
-def explore(ctx, bases, k, want, alphabet=GAPS, chunk=40000, include_canonical=True, classify=True):
+def explore(ctx, bases, k, want, alphabet=GAPS, chunk=40000, include_canonical=True, classify=True, token_comments=True):
     """Run one front job (want) on every layout with <= k deviating gaps of every base.
     Yields (base, devs, text, result, status) with status in same | tree-changed | parse-error | failed
     (classify=False: same is reported as "unclassified": no tree comparison is made).
@@ -320,7 +350,7 @@ def explore(ctx, bases, k, want, alphabet=GAPS, chunk=40000, include_canonical=T
     for b in bases:
         if include_canonical:
             buf.append((b, (), b.render()))
-        for d in deviations(b, k, alphabet):
+        for d in deviations(b, k, alphabet, token_comments):
             buf.append((b, d, b.render(d)))
         if len(buf) >= chunk:
             yield from flush()
